@@ -91,6 +91,11 @@ pub trait Prop: 'static {
     fn essential_classes() -> &'static [&'static str] {
         &[]
     }
+    /// Brings a case decoded from raw fuzzer bytes into the domain the strategy would
+    /// generate (sizes bounded, unsound combinations removed). Returns false to discard it.
+    fn fuzz_sanitize(_case: &mut Self::Case) -> bool {
+        true
+    }
 }
 
 // ---------------------------------------------------------------------------------------------
@@ -594,4 +599,86 @@ pub fn run_batch<P: Prop>(path: &Path, shard: usize, nshards: usize, known: &Kno
     }
     println!("BATCHDONE ran={} nontrivial={} fails={}", ran, nt, fails);
     fails
+}
+
+// ---------------------------------------------------------------------------------------------
+// coverage-guided fuzzing: libFuzzer's bytes are decoded into the property's case type by the
+// serde-driven byte decoder in bytefuzz.rs (all case types derive Deserialize).
+
+pub struct FuzzState<P: Prop> {
+    _p: std::marker::PhantomData<P>,
+    known: Known,
+    out_dir: Option<PathBuf>,
+    decode_only: bool,
+    execs: u64,
+    nontrivial: u64,
+    tier: Tier,
+}
+
+impl<P: Prop> FuzzState<P> {
+    pub fn new() -> Self {
+        let tier = if std::env::var("TDV_FUZZ_TIER").as_deref() == Ok("thorough") { Tier::Thorough } else { Tier::Quick };
+        FuzzState {
+            _p: Default::default(),
+            known: Known::load(&PathBuf::from(std::env::var("TDV_KNOWN").unwrap_or_else(|_| "/verif/known_findings.txt".into()))),
+            out_dir: std::env::var("TDV_FUZZ_OUT").ok().map(PathBuf::from),
+            decode_only: std::env::var("TDV_DECODE").is_ok(),
+            execs: 0,
+            nontrivial: 0,
+            tier,
+        }
+    }
+
+    pub fn decode(&self, bytes: &[u8]) -> Option<P::Case> {
+        let mut case: P::Case = crate::bytefuzz::from_bytes(bytes)?;
+        if P::fuzz_sanitize(&mut case) {
+            Some(case)
+        } else {
+            None
+        }
+    }
+
+    /// One libFuzzer iteration. Aborts the process (after writing a replay file) on an
+    /// oracle failure that is not a listed known finding.
+    pub fn one(&mut self, bytes: &[u8]) {
+        let Some(case) = self.decode(bytes) else { return };
+        if self.decode_only {
+            println!("DECODED {}", serde_json::to_string(&case).unwrap());
+            return;
+        }
+        let mut ctx = Ctx::new(self.tier);
+        crate::elem::reset();
+        let r = match catch_unwind(AssertUnwindSafe(|| P::execute(&case, &mut ctx))) {
+            Ok(v) => v,
+            Err(_) => Err(Failure { sig: "unexpected-panic-in-executor".into(), msg: format!("panic escaped the executor: {}", last_panic()) }),
+        };
+        crate::elem::disarm();
+        self.execs += 1;
+        if ctx.nontrivial {
+            self.nontrivial += 1;
+        }
+        if self.execs % 20000 == 0 {
+            if let Some(d) = &self.out_dir {
+                let _ = std::fs::write(d.join("progress.json"), format!("{{\"execs\":{},\"nontrivial\":{}}}", self.execs, self.nontrivial));
+            }
+        }
+        if let Err(f) = r {
+            if self.known.matches(P::ID, &f.sig).is_some() {
+                return;
+            }
+            let doc = json!({"property": P::ID, "substrate": "fuzz", "origin": "libfuzzer", "sig": f.sig, "verdict": f.msg, "case": serde_json::to_value(&case).unwrap()});
+            if let Some(d) = &self.out_dir {
+                let _ = std::fs::create_dir_all(d);
+                let _ = std::fs::write(d.join(format!("fail-fuzz-{}.json", hash_bytes(bytes))), serde_json::to_string_pretty(&doc).unwrap());
+            }
+            eprintln!("FUZZ-FAIL property={} sig={} :: {}", P::ID, f.sig, f.msg);
+            std::process::abort();
+        }
+    }
+
+    pub fn finish(&self) {
+        if let Some(d) = &self.out_dir {
+            let _ = std::fs::write(d.join("progress.json"), format!("{{\"execs\":{},\"nontrivial\":{}}}", self.execs, self.nontrivial));
+        }
+    }
 }
